@@ -1140,9 +1140,13 @@ class Process(StateMachine, persistence.Savable, metaclass=ProcessStateMachineMe
 
     def _do_pause(self, state_msg: Optional[MessageType], next_state: Optional[process_states.State] = None) -> bool:
         """Carry out the pause procedure, optionally transitioning to the next state first"""
+        pausing = self._pausing
         try:
             if next_state is not None:
                 self.transition_to(next_state)
+                if pausing is not None and self._pausing is not pausing:
+                    # Played again, or superseded by a kill, from a callback during the transition
+                    return False
 
             if state_msg is None:
                 msg_text = ''
@@ -1152,7 +1156,8 @@ class Process(StateMachine, persistence.Savable, metaclass=ProcessStateMachineMe
             call_with_super_check(self.on_pausing, msg_text)
             call_with_super_check(self.on_paused, msg_text)
         finally:
-            self._pausing = None
+            if self._pausing is pausing:
+                self._pausing = None
 
         return True
 
@@ -1367,11 +1372,23 @@ class Process(StateMachine, persistence.Savable, metaclass=ProcessStateMachineMe
                 # The step failed, which takes precedence over a pending pause or kill
                 self._set_interrupt_action(None)
 
-            if self._interrupt_action:
-                self._interrupt_action.run(next_state)
+            action = self._interrupt_action
+            if action is not None:
+                action.run(next_state)
             else:
                 # Everything nominal so transition to the next state
                 self.transition_to(next_state)
+
+            while (
+                self._interrupt_action is not None
+                and self._interrupt_action is not action
+                and not self.has_terminated()
+            ):
+                # A pause or kill was requested by a callback during the transition, carry it out right away. The new
+                # state has been interrupted for it, which has to be ignored when the state gets executed.
+                action = self._interrupt_action
+                self._stale_interruption = action.cookie
+                action.run(None)
 
         finally:
             self._stepping = False
